@@ -484,8 +484,9 @@ func (g *gen) intCall(d int) (string, ivl, bool) {
 
 type inlFn struct {
 	pkg, name string
-	nargs     int
+	params    []string // parameter names of the inlined function
 	out       func(a []ivl) ivl
+	shape     []int // per argument: 0 any (|v| <= 2^20), 1 small base, 2 small exponent, 3 positive modulus, 4 non-negative
 }
 
 func sumIvl(a []ivl) ivl {
@@ -497,19 +498,82 @@ func sumIvl(a []ivl) ivl {
 	return r
 }
 
-// Functions of /repo/pkg/compiler/testdata/inline — the packages the compiler
-// inlines at the call site; argument bound 2^20.
+func absIvl(a []ivl) ivl { return ivl{-a[0].abs(), a[0].abs()} }
+
+// Functions the compiler inlines at the call site: the plain-Go packages of
+// /repo/pkg/compiler/testdata/inline and the opcode wrappers of
+// pkg/interop/math (natively replaced by equivalent Go, see native_test.go).
 var inlFns = []inlFn{
-	{"inl", "Sum", 2, sumIvl},
-	{"inl", "SumSquared", 2, func(a []ivl) ivl { m := sumIvl(a).abs(); return ivl{0, m * m} }},
-	{"inl", "VarSum", 3, sumIvl},
-	{"inl", "SumVar", 2, sumIvl},
-	{"inl", "Concat", 1, func(a []ivl) ivl { m := a[0].abs()*100 + 200; return ivl{-m, m} }},
-	{"inlc", "MulIfSmall", 1, func(a []ivl) ivl { m := a[0].abs() * 2; return ivl{-m, m} }},
-	{"inlc", "Transform", 2, func(a []ivl) ivl { m := max(a[0].abs(), a[1].abs()) * 2; return ivl{-m, m} }},
-	{"inld", "Negate", 1, func(a []ivl) ivl { return ivl{-a[0].abs(), a[0].abs()} }},
-	{"inld", "AddNeg", 2, func(a []ivl) ivl { m := sumIvl(a).abs(); return ivl{-m, m} }},
-	{"inld", "Wrap2", 1, func(a []ivl) ivl { return ivl{-a[0].abs(), a[0].abs()} }},
+	{"inl", "Sum", []string{"a", "b"}, sumIvl, nil},
+	{"inl", "SumSquared", []string{"a", "b"}, func(a []ivl) ivl { m := sumIvl(a).abs(); return ivl{0, m * m} }, nil},
+	{"inl", "VarSum", []string{"a", "b", "b"}, sumIvl, nil},
+	{"inl", "SumVar", []string{"a", "b"}, sumIvl, nil},
+	{"inl", "Concat", []string{"n"}, func(a []ivl) ivl { m := a[0].abs()*100 + 200; return ivl{-m, m} }, nil},
+	{"inlc", "MulIfSmall", []string{"n"}, func(a []ivl) ivl { m := a[0].abs() * 2; return ivl{-m, m} }, nil},
+	{"inlc", "Transform", []string{"a", "b"}, func(a []ivl) ivl { m := max(a[0].abs(), a[1].abs()) * 2; return ivl{-m, m} }, nil},
+	{"inld", "Negate", []string{"n"}, absIvl, nil},
+	{"inld", "AddNeg", []string{"a", "b"}, func(a []ivl) ivl { m := sumIvl(a).abs(); return ivl{-m, m} }, nil},
+	{"inld", "Wrap2", []string{"n"}, absIvl, nil},
+	{"imath", "Abs", []string{"a"}, func(a []ivl) ivl { return ivl{0, a[0].abs()} }, nil},
+	{"imath", "Sign", []string{"a"}, func(a []ivl) ivl { return ivl{-1, 1} }, nil},
+	{"imath", "Pow", []string{"a", "b"}, func(a []ivl) ivl { return ivl{-(1 << 21), 1 << 21} }, []int{1, 2}},
+	{"imath", "Sqrt", []string{"x"}, func(a []ivl) ivl { return ivl{0, 1 << 11} }, []int{4}},
+	{"imath", "ModMul", []string{"a", "b", "mod"}, func(a []ivl) ivl { return ivl{-200, 200} }, []int{0, 0, 3}},
+	{"imath", "ModPow", []string{"a", "b", "mod"}, func(a []ivl) ivl { return ivl{0, 200} }, []int{4, 2, 3}},
+}
+
+// clashNames are the parameter names of the inlined functions; locals get
+// these names on purpose.
+var clashNames = []string{"a", "b", "n", "x", "mod"}
+
+// shapeArg brings an argument expression into the domain of the parameter.
+func shapeArg(e string, iv ivl, shape int) (string, ivl) {
+	switch shape {
+	case 1:
+		return fit(e, iv, 8)
+	case 2:
+		return fmt.Sprintf("((%s%%4 + 4) %% 4)", e), ivl{0, 3}
+	case 3:
+		return fmt.Sprintf("(%s%%97 + 100)", e), ivl{4, 196}
+	case 4:
+		e, _ = fit(e, iv, 1<<20)
+		return fmt.Sprintf("(%s + %d)", e, 1<<20), ivl{0, 1 << 21}
+	}
+	return fit(e, iv, 1<<20)
+}
+
+// clashArg builds an argument that contains a call and mentions a caller
+// variable named like one of the earlier parameters of the inlined function.
+func (g *gen) clashArg(earlier []string) (string, ivl, bool) {
+	var cand []*vr
+	for _, v := range g.visible(tInt, false) {
+		for _, n := range earlier {
+			if v.name == n {
+				cand = append(cand, v)
+			}
+		}
+	}
+	if len(cand) == 0 || g.noCalls {
+		return "", ivl{}, false
+	}
+	v := cand[g.r.Intn(len(cand))]
+	fs := g.callable(func(f *fn) bool {
+		return len(f.rets) == 1 && f.rets[0] == tInt && f.recv == nil && (!f.impure || g.noHeap) &&
+			len(f.params) > 0 && f.params[0].t == tInt
+	})
+	if len(fs) == 0 {
+		return "", ivl{}, false
+	}
+	f := fs[g.r.Intn(len(fs))]
+	first, _ := fit(v.name, varIvl(v), f.params[0].bound)
+	as := first
+	if len(f.params) > 1 {
+		rest, _ := g.args(&fn{params: f.params[1:]}, 0)
+		as += ", " + rest
+	}
+	g.noteCall(f)
+	g.f("inlined-helper-argument-names-a-parameter")
+	return fmt.Sprintf("%s(%s)", f.name, as), ivl{-f.retBound, f.retBound}, true
 }
 
 func (g *gen) inlCall(d int) (string, ivl) {
@@ -522,9 +586,23 @@ func (g *gen) inlCall(d int) (string, ivl) {
 	saved := g.noPanic
 	g.noPanic = true
 	defer func() { g.noPanic = saved }()
-	for range f.nargs {
+	for i := range f.params {
 		e, iv := g.intExpr(d)
-		e, iv = fit(e, iv, 1<<20)
+		if i > 0 && g.r.Intn(3) > 0 {
+			if ce, civ, ok := g.clashArg(f.params[:i]); ok {
+				e, iv = ce, civ
+			}
+		} else if i == 0 && g.r.Intn(4) == 0 {
+			// a call in the first argument: the parameter is stored, not aliased
+			if ce, civ, ok := g.intCall(0); ok {
+				e, iv = ce, civ
+			}
+		}
+		sh := 0
+		if f.shape != nil {
+			sh = f.shape[i]
+		}
+		e, iv = shapeArg(e, iv, sh)
 		as = append(as, e)
 		ivs = append(ivs, iv)
 	}
@@ -717,6 +795,27 @@ func (g *gen) boolExpr(d int) string {
 	case 6:
 		return fmt.Sprintf("!(%s)", g.boolExpr(d-1))
 	case 7:
+		if !g.noCalls && g.r.Intn(3) == 0 {
+			saved := g.noPanic
+			g.noPanic = true
+			x, ix := g.intExpr(d - 1)
+			y, iy := g.intExpr(d - 1)
+			z, iz := g.intExpr(d - 1)
+			if g.r.Bool() {
+				if ce, civ, ok := g.clashArg([]string{"x", "a"}); ok {
+					z, iz = ce, civ
+				}
+			}
+			g.noPanic = saved
+			x, _ = fit(x, ix, 1<<20)
+			y, _ = fit(y, iy, 1<<20)
+			z, _ = fit(z, iz, 1<<20)
+			g.f("inlined-helper")
+			if g.r.Bool() {
+				return fmt.Sprintf("imath.Within(%s, %s, %s)", x, y, z)
+			}
+			return fmt.Sprintf("iutil.Equals(%s, %s)", y, z)
+		}
 		a, _ := g.strExpr(d - 1)
 		b, _ := g.strExpr(d - 1)
 		g.f("string-compare")
@@ -874,6 +973,17 @@ func (g *gen) declLocal(depth int) {
 	restore := g.exprMode()
 	defer restore()
 	name := g.fresh("v")
+	if g.cur != nil && g.cur.name != "pure0" && g.r.Intn(4) == 0 {
+		// names of parameters of inlined functions
+		n := clashNames[g.r.Intn(len(clashNames))]
+		free := true
+		for _, v := range g.scope {
+			free = free && v.name != n
+		}
+		if free {
+			name = n
+		}
+	}
 	shadows := false
 	// deliberate shadowing of an outer integer (with `:=` only, see the directed
 	// case "shadowing-var-declaration-reads-outer-variable")
@@ -1797,6 +1907,121 @@ func (g *gen) ret(early bool) {
 	g.w("return %s", strings.Join(vals, ", "))
 }
 
+// shadowSiblings declares, in the first branch of a compound statement, a
+// variable named like an outer one, and reads / writes the outer variable in
+// the later branches; a loop around it takes different branches on successive
+// iterations.
+func (g *gen) shadowSiblings(depth int) {
+	var cand []*vr
+	for _, v := range g.visible(tInt, false) {
+		if !v.global && v.iv == nil {
+			cand = append(cand, v)
+		}
+	}
+	if len(cand) == 0 {
+		return
+	}
+	v := cand[g.r.Intn(len(cand))]
+	g.f("shadowing-in-sibling-branch")
+	i := g.fresh("i")
+	n := 3 + g.r.Intn(2)
+	if g.r.Bool() {
+		g.w("for %s := 0; %s < %d; %s++ {", i, i, n, i)
+	} else {
+		g.w("for %s := range %d {", i, n)
+	}
+	g.ind++
+	g.w("_ = %s", i)
+	shadow := func() {
+		restore := g.exprMode()
+		e, iv := g.intExpr(1)
+		e, _ = fit(e, iv, v.bound)
+		restore()
+		g.w("%s := %s", v.name, e)
+		g.w("acc = (acc*31 + %s%%%d) %% %d", v.name, modBig, modBig)
+		if depth > 1 && g.r.Intn(3) == 0 {
+			g.lvl++
+			sv := len(g.scope)
+			g.push(&vr{name: v.name, t: tInt, bound: v.bound})
+			g.stmt(depth - 2)
+			g.scope = g.scope[:sv]
+			g.lvl--
+		}
+	}
+	use := func() {
+		g.w("acc = (acc*31 + %s%%%d) %% %d", v.name, modBig, modBig)
+		if !v.ro && v.name != "acc" && g.r.Bool() {
+			g.w("%s = (%s%%%d + %s + 1) %% %d", v.name, v.name, min(v.bound, 1<<40)+1, i, v.bound+1)
+		}
+		g.mark()
+	}
+	sel := fmt.Sprintf("(%s + %d) %% %d", i, g.r.Intn(3), 3)
+	switch g.r.Intn(5) {
+	case 0:
+		g.w("switch %s {", sel)
+		g.w("case 0:")
+		g.ind++
+		shadow()
+		g.ind--
+		g.w("case 1:")
+		g.ind++
+		use()
+		g.ind--
+		g.w("default:")
+		g.ind++
+		use()
+		g.ind--
+		g.w("}")
+	case 1:
+		g.w("switch {")
+		g.w("case %s == 0:", sel)
+		g.ind++
+		shadow()
+		g.ind--
+		g.w("case %s == 1:", sel)
+		g.ind++
+		use()
+		g.ind--
+		g.w("default:")
+		g.ind++
+		use()
+		g.ind--
+		g.w("}")
+	case 2:
+		g.w("if %s == 0 {", sel)
+		g.ind++
+		shadow()
+		g.ind--
+		g.w("} else if %s == 1 {", sel)
+		g.ind++
+		use()
+		g.ind--
+		g.w("} else {")
+		g.ind++
+		use()
+		g.ind--
+		g.w("}")
+	case 3:
+		g.w("{")
+		g.ind++
+		shadow()
+		g.ind--
+		g.w("}")
+		use()
+	default:
+		j := g.fresh("j")
+		g.w("for %s := 0; %s < 2; %s++ {", j, j, j)
+		g.ind++
+		shadow()
+		g.ind--
+		g.w("}")
+		use()
+	}
+	use()
+	g.ind--
+	g.w("}")
+}
+
 // mark makes reaching this point visible in the result.
 func (g *gen) mark() {
 	g.nmark++
@@ -1895,7 +2120,11 @@ func (g *gen) stmt(depth int) {
 	case x < 38:
 		g.assign(depth)
 	case x < 40 && depth > 0:
-		g.nest(depth)
+		if g.r.Bool() {
+			g.nest(depth)
+		} else {
+			g.shadowSiblings(depth)
+		}
 	case x < 52 && depth > 0:
 		g.ifStmt(depth)
 		g.afterNested()
@@ -2109,6 +2338,17 @@ func (g *gen) genFunc(p fnPlan) {
 		restore()
 	}
 	g.push(&vr{name: "acc", t: tInt, bound: accB})
+	if !g.noCalls && g.r.Bool() {
+		for _, n := range clashNames[:2+g.r.Intn(3)] {
+			restore := g.exprMode()
+			e, iv := g.intExpr(1)
+			e, _ = fit(e, iv, 1<<31)
+			restore()
+			g.w("%s := %s", n, e)
+			g.w("_ = %s", n)
+			g.push(&vr{name: n, t: tInt, bound: 1 << 31})
+		}
+	}
 	if !g.noCalls {
 		// a few composite locals up front so that later statements have something to work on
 		for _, k := range []int{7, 9, 10, 12, 13} {
@@ -2560,7 +2800,10 @@ func genProgram(idx int, tuples int) *program {
 	return p
 }
 
-const inlPath = "github.com/nspcc-dev/neo-go/pkg/compiler/testdata/inline"
+const (
+	inlPath     = "github.com/nspcc-dev/neo-go/pkg/compiler/testdata/inline"
+	interopPath = "github.com/nspcc-dev/neo-go/pkg/interop"
+)
 
 func (g *gen) lastLine() string {
 	s := strings.TrimRight(g.sb.String(), "\n")
@@ -2609,7 +2852,8 @@ func (g *gen) nonConstBool() string {
 // importsFor returns the import block for the inlined helper packages text uses.
 func importsFor(text string) string {
 	var l []string
-	for _, k := range [][2]string{{"inl", inlPath}, {"inlc", inlPath + "/c"}, {"inld", inlPath + "/d"}} {
+	for _, k := range [][2]string{{"inl", inlPath}, {"inlc", inlPath + "/c"}, {"inld", inlPath + "/d"},
+		{"imath", interopPath + "/math"}, {"iutil", interopPath + "/util"}} {
 		if strings.Contains(text, k[0]+".") {
 			l = append(l, fmt.Sprintf("\t%s %q\n", k[0], k[1]))
 		}
